@@ -835,6 +835,11 @@ def run(ctx: fw.Ctx) -> int:
     r = ctx.rng
     D: dict[str, list[fw.Case]] = {k: [] for k in ('diff', 'reduce', 'build', 'essence', 'adjust', 'own', 'fin')}
     skipped = 0
+    tie_on = True     # thorough: the monitors sweep a larger volume than the (costly) Coq evaluation of the ties
+
+    def addD(name: str, case: fw.Case) -> None:
+        if tie_on:
+            D[name].append(case)
 
     # ================= corpus (hand-seeded dangerous cases; known findings are reproduced here) =================
     corpus = load_corpus()
@@ -853,7 +858,8 @@ def run(ctx: fw.Ctx) -> int:
         ctx.count('corpus', c['kind'])
 
     # ================= diff / reduce =================
-    n_pairs = ctx.scale(1000, 8000)
+    n_pairs = ctx.scale(1000, 40000)
+    tie_pairs = ctx.scale(1000, 8000)
     for i in range(n_pairs):
         a = G.obj(3, nkeys=(1, 2, 3, 4)) if r.random() < 0.85 else G.json(3)
         b = mutate_json(r, G, a) if r.random() < 0.85 else G.json(3)
@@ -872,7 +878,7 @@ def run(ctx: fw.Ctx) -> int:
         except cq.Unencodable:
             skipped += 1
             return
-        D['diff'].append(fw.Case(term, {'a': a, 'b': b, 'scope': scope, 'diff': diff_list(d), 'src': src},
+        addD('diff', fw.Case(term, {'a': a, 'b': b, 'scope': scope, 'diff': diff_list(d), 'src': src},
                                  diag=f'diff_iter {cscope(scope)} {canon.cj(a)} {canon.cj(b)} []'))
 
     def paths_of(v: Any, pre: tuple = ()) -> list[tuple]:
@@ -882,7 +888,8 @@ def run(ctx: fw.Ctx) -> int:
                 out += paths_of(x, pre + (k,))
         return out
 
-    for a, b, src in pairs:
+    for idx, (a, b, src) in enumerate(pairs):
+        tie_on = idx < tie_pairs + len(corpus)
         check_diff_pair(ctx, a, b, src)
         add_diff_case(a, b, src, 'full')
         if r.random() < 0.3:
@@ -903,7 +910,7 @@ def run(ctx: fw.Ctx) -> int:
         try:
             red = diffs.reduce(d, path)
             term = f'diff_sameb (reduce {cdiff(d)} {cq.cpath(path)}) {cdiff(red)}'
-            D['reduce'].append(fw.Case(term, {'a': a, 'b': b, 'path': list(path), 'diff': diff_list(d), 'reduced': diff_list(red)},
+            addD('reduce', fw.Case(term, {'a': a, 'b': b, 'path': list(path), 'diff': diff_list(d), 'reduced': diff_list(red)},
                                        diag=f'reduce {cdiff(d)} {cq.cpath(path)}'))
             # reduce of a hand-made (coarser) diff: one CHANGE item above the path, old/new possibly both mappings
             if path and r.random() < 0.3:
@@ -911,7 +918,7 @@ def run(ctx: fw.Ctx) -> int:
                 hand = diffs.Diff([diffs.DiffItem(diffs.DiffOperation.CHANGE, tuple(path[:j]), resolve_path(a, tuple(path[:j])),
                                                   resolve_path(b, tuple(path[:j])))])
                 hred = diffs.reduce(hand, path)
-                D['reduce'].append(fw.Case(f'diff_sameb (reduce {cdiff(hand)} {cq.cpath(path)}) {cdiff(hred)}',
+                addD('reduce', fw.Case(f'diff_sameb (reduce {cdiff(hand)} {cq.cpath(path)}) {cdiff(hred)}',
                                            {'hand_made_diff': diff_list(hand), 'path': list(path), 'reduced': diff_list(hred)},
                                            diag=f'reduce {cdiff(hand)} {cq.cpath(path)}'))
             # adjust_cause as a whole (old may be None = never handled)
@@ -925,9 +932,10 @@ def run(ctx: fw.Ctx) -> int:
                 c2 = handlers.ResourceHandler.adjust_cause(h, cc)  # type: ignore
                 term = (f'adj_eqb (adjust_cause {cq.cpath(path)} {cq.copt(canon.cj(old)) if old is not None else "None"} {canon.cj(b)} {cdiff(dd)}) '
                         f'({canon.cj(c2.old)}, {canon.cj(c2.new)}, {cdiff(c2.diff)})')
-                D['adjust'].append(fw.Case(term, {'old': old, 'new': b, 'path': list(path), 'adjusted': [c2.old, c2.new, diff_list(c2.diff)]}))
+                addD('adjust', fw.Case(term, {'old': old, 'new': b, 'path': list(path), 'adjusted': [c2.old, c2.new, diff_list(c2.diff)]}))
         except cq.Unencodable:
             skipped += 1
+    tie_on = True
     for a, b, src in exhaustive:
         check_diff_pair(ctx, a, b, src)
         for path in [(), ('x',), ('x', 'y')]:
@@ -936,8 +944,10 @@ def run(ctx: fw.Ctx) -> int:
         add_diff_case(a, b, src, 'full')
 
     # ================= essence: build, clear o build, old/new/diff, own writes, other operators =================
-    n = ctx.scale(400, 1500)
+    n = ctx.scale(400, 8000)
+    tie_bodies = ctx.scale(400, 1500)
     for i in range(n):
+        tie_on = i < tie_bodies
         op = gen_operator(r)
         others = [gen_operator(r) for _ in range(r.choice([0, 0, 1, 1, 2]))]
         # other operators use annotation storages under their own prefix (status storages would share status.kopf)
@@ -967,7 +977,7 @@ def run(ctx: fw.Ctx) -> int:
         dg = op.dg([])
         try:
             exp = canon.cres(kind, canon.cj(built) if kind == 'ok' else None)
-            D['build'].append(fw.Case(f'res_eqb jeqb (dbuild {dg} {dsc} {mbody} {extra}) {exp}', {**data, 'built': built, 'outcome': kind},
+            addD('build', fw.Case(f'res_eqb jeqb (dbuild {dg} {dsc} {mbody} {extra}) {exp}', {**data, 'built': built, 'outcome': kind},
                                       diag=f'dbuild {dg} {dsc} {mbody} {extra}'))
         except cq.Unencodable:
             skipped += 1
@@ -983,12 +993,12 @@ def run(ctx: fw.Ctx) -> int:
                 md = raw.get('metadata') if isinstance(raw.get('metadata'), dict) else {}
                 if md.get('deletionTimestamp') is None and reason in ('create', 'update', 'noop'):
                     ck = {'create': 'KCreate', 'update': 'KUpdate', 'noop': 'KSame'}[reason]
-                    D['essence'].append(fw.Case(
+                    addD('essence', fw.Case(
                         f'ck_eqb (classify_change {old} {cdiff(cc.diff)}) {ck}', {**data, 'reason': reason}))
                 ctx.count('reason', reason)
             else:
                 exp = canon.cres(kind)
-            D['essence'].append(fw.Case(f'res_eqb ond_eqb (old_new_diff {dg} {dsc} {psc} {mbody} {extra}) {exp}',
+            addD('essence', fw.Case(f'res_eqb ond_eqb (old_new_diff {dg} {dsc} {psc} {mbody} {extra}) {exp}',
                                         {**data, 'outcome': kind, 'old': cc.old if kind == 'ok' else None,
                                          'new': cc.new if kind == 'ok' else None},
                                         diag=f'old_new_diff {dg} {dsc} {psc} {mbody} {extra}'))
@@ -1009,14 +1019,14 @@ def run(ctx: fw.Ctx) -> int:
         try:
             dgo = op.dg([o[1] for o in ops if o[0] in ('store', 'purge')])
             exp = canon.cres(okind, canon.cj(patch) if okind == 'ok' else None)
-            D['own'].append(fw.Case(f'res_eqb jeqb (own_patch {dgo} {dsc} {psc} {mbody} {cops(ops)}) {exp}',
+            addD('own', fw.Case(f'res_eqb jeqb (own_patch {dgo} {dsc} {psc} {mbody} {cops(ops)}) {exp}',
                                     {**data, 'ops': [list(o) for o in ops], 'patch': patch, 'outcome': okind},
                                     diag=f'own_patch {dgo} {dsc} {psc} {mbody} {cops(ops)}'))
             if okind == 'ok' and after is not None and i % 3 == 0:
                 # the model's essence of the body after the write (ties essence o merge, the subject of the theorem)
                 k1, e1 = op.essence(after)
                 exp = canon.cres(k1, canon.cj(e1) if k1 == 'ok' else None)
-                D['own'].append(fw.Case(
+                addD('own', fw.Case(
                     f'res_eqb jeqb (bind (own_body_after {dgo} {dsc} {psc} {mbody} {cops(ops)}) (fun b => essence {dgo} {dsc} {psc} b {extra})) {exp}',
                     {**data, 'ops': [list(o) for o in ops], 'essence_after': e1}))
         except cq.Unencodable:
@@ -1029,7 +1039,7 @@ def run(ctx: fw.Ctx) -> int:
             try:
                 exp = canon.cres(fk, canon.cj(fb) if fk == 'ok' else None)
                 fn = 'fin_block' if name == 'block' else 'fin_allow'
-                D['fin'].append(fw.Case(f'res_eqb jeqb ({fn} {cq.cstr(FINALIZER)} {mbody}) {exp}', {'body': raw, 'fn': name, 'after': fb},
+                addD('fin', fw.Case(f'res_eqb jeqb ({fn} {cq.cstr(FINALIZER)} {mbody}) {exp}', {'body': raw, 'fn': name, 'after': fb},
                                         diag=f'{fn} {cq.cstr(FINALIZER)} {mbody}'))
             except cq.Unencodable:
                 skipped += 1
